@@ -2,19 +2,17 @@
   drv_render — line-protocol driver for OdfModel.Render (property C12).
     run <tv> <ops> <doc>
        tv   TOOLSVERSION (wire string)
-       ops  letters: S save, W write, X xml, C contentxml, Y stylesxml, M metaxml, T settingsxml
+       ops  letters: S save, W write, X xml, C contentxml, Y stylesxml, M metaxml, T settingsxml,
+            F / G a save()/write() that raised before / after metaxml() ran (output "N")
        doc  mimetype nTopAttrs (a v)* meta scripts ffd settings styles auto master body
             nPics (name mt id)*  nObjects (folder mimetype meta <7 nodes> nPics (name mt id)* nExtras (name mt (N | id))*)*
             thumb(N | id) thumbMediaType  nExtras (name mt (N | id))*
     -> ok ; <state> @ <output> ; <state> @ <output> ...      one group per call
        state  = "="  (document dump identical to the dump before the call)  |  "D" <doc>
-       output = "X" <node>  |  "P" n (name ("x" <node> | "r" id | "b" str))*
-    runf <tv> <calls> <doc>       calls with faults (OdfModel.RenderFault): comma-separated, a letter as above, optionally
-       followed by "!k" = the call raises while member k of the package is written (S and W only);   output of a failed call = "F"
+       output = "X" <node>  |  "P" n (name ("x" <node> | "r" id | "b" str))*  |  "N"
   The style-reference configuration is built from the generated tables.
 -/
 import OdfModel.Render
-import OdfModel.RenderFault
 import OdfModel.Generated.StyleRefs
 import Drivers.StyleWire
 open OdfModel OdfModel.Styles OdfModel.Render OdfModel.Generated.StyleRefs Drivers.StyleWire
@@ -105,44 +103,27 @@ def opOf : Char → Option Op
   | 'S' => some .save | 'W' => some .write | 'X' => some .xml | 'C' => some .contentxml
   | 'Y' => some .stylesxml | 'M' => some .metaxml | 'T' => some .settingsxml | _ => none
 
-def runAll (c : Render.Cfg) : List Op → Doc → List String
+/-- `F` / `G`: a save()/write() that raised before / after `metaxml()` ran (`Render.Call`) -/
+def callOf : Char → Option Call
+  | 'F' => some .failedEarly | 'G' => some .failedLate | ch => (opOf ch).map Call.ok
+
+def showOptOut : Option Out → List String
+  | some o => showOut o
+  | none => ["N"]
+
+def runAll (c : Render.Cfg) : List Call → Doc → List String
   | [], _ => []
-  | op :: r, d =>
-    let o := out c op d
-    let d' := step c op d
+  | k :: r, d =>
+    let o := outC c k d
+    let d' := stepC c k d
     let before := showDoc d
     let after := showDoc d'
-    [";"] ++ (if before == after then ["="] else "D" :: after) ++ ["@"] ++ showOut o ++ runAll c r d'
-
-def callOf (t : String) : Option RenderFault.Call :=
-  match t.splitOn "!" with
-  | [l] => match l.toList with
-    | [ch] => (opOf ch).map (fun op => { op := op, fault := none })
-    | _ => none
-  | [l, k] => match l.toList, k.toNat? with
-    | [ch], some k => (opOf ch).map (fun op => { op := op, fault := some k })
-    | _, _ => none
-  | _ => none
-
-def runAllC (c : Render.Cfg) : List RenderFault.Call → Doc → List String
-  | [], _ => []
-  | x :: r, d =>
-    let o := RenderFault.outC c x d
-    let d' := RenderFault.stepC c x d
-    let before := showDoc d
-    let after := showDoc d'
-    [";"] ++ (if before == after then ["="] else "D" :: after) ++ ["@"]
-      ++ (match o with | some o => showOut o | none => ["F"]) ++ runAllC c r d'
+    [";"] ++ (if before == after then ["="] else "D" :: after) ++ ["@"] ++ showOptOut o ++ runAll c r d'
 
 def handle (line : String) : String :=
   match line.trimAscii.toString.splitOn " " with
-  | "runf" :: tv :: calls :: toks =>
-    match Wire.dec tv, (calls.splitOn ",").mapM callOf, (pDoc.run toks) with
-    | some tv, some calls, some (d, []) =>
-      String.intercalate " " ("ok" :: runAllC { followed := { single := followedAttrs, list := followedListAttrs, sp := fun c => pySpaceTable.contains c }, tv := tv } calls d)
-    | _, _, _ => "err bad-arg"
   | "run" :: tv :: ops :: toks =>
-    match Wire.dec tv, ops.toList.mapM opOf, (pDoc.run toks) with
+    match Wire.dec tv, ops.toList.mapM callOf, (pDoc.run toks) with
     | some tv, some ops, some (d, []) =>
       String.intercalate " " ("ok" :: runAll { followed := { single := followedAttrs, list := followedListAttrs, sp := fun c => pySpaceTable.contains c }, tv := tv } ops d)
     | _, _, _ => "err bad-arg"
